@@ -22,9 +22,9 @@ LEVEL = ('decides the plumbing a proof depends on: every reason that is used is 
          'minimisation are explained to the proof (P12). The initial-domain mark and the comparison in'
          ' is_initial_bound agree on which trail entries need no explanation (P13 TABLE); the '
          'constraint tag given to post / implied_by reaches every posting call (P14 TAINT); the '
-         'optimality conclusion is stated on the scaled objective (P15 = C04-O9). Does not decide that'
-         ' a logged inference follows from its constraint or that a nogood is derivable — that needs a'
-         ' proof checker and runs')
+         'optimality conclusion is stated on the scaled objective (P15 = C04-O9). Also runs the KERNEL'
+         ' BUNDLE (PK<n>). Does not decide that a logged inference follows from its constraint or that'
+         ' a nogood is derivable — that needs a proof checker and runs')
 TECHNIQUE = "static analysis: must-pass, typestate with a proof-completed bit, table recovery, populate/lookup guard agreement over rustc MIR"
 
 PROOF_DONE = 4     # bit of the X component: complete_proof / finalize_proof + empty nogood logged
@@ -687,3 +687,5 @@ def run(ctx, led):
     run_rule(led, "P10", "the premises of every logged inference are the complete explanation (no selecting adaptor between the explanation and log_inference)", p10, ctx)
     run_rule(led, "P11", "tagged root-propagation batches start at a trail length read after the previous propagator (MUST-PASS on the loop)", p11, ctx)
     run_rule(led, "P12", "root-level antecedents skipped by analysis / minimisation are explained to the proof (MUST-PASS)", p12, ctx)
+    from . import kernel as _kernel
+    _kernel.run_bundle(led, ctx, "P")
